@@ -7,6 +7,7 @@
 -/
 import IcontractModel.Meta
 import IcontractModel.Spec.Override
+import IcontractModel.Lemmas.MetaFrame
 namespace Icontract.Meta
 
 /-- **Collapse rule** (`_decorate_namespace_function`, inherited members): when the collapse is
@@ -22,19 +23,27 @@ theorem C04_collapse_is_base_then_own (w w' : World) (key : String) (f : FnId)
       w'.heap.get ck'.pre = bPre ++ (match w.checker? f with | some ck => w.heap.get ck.pre | none => []) ∧
       w'.heap.get ck'.snaps = bSnaps ++ (match w.checker? f with | some ck => w.heap.get ck.snaps | none => []) ∧
       w'.heap.get ck'.posts = bPosts ++ (match w.checker? f with | some ck => w.heap.get ck.posts | none => []) := by
-  sorry
+  rcases decorateOne_cases w w' key f true have_ bPre bSnaps bPosts hok with ⟨_, h | h⟩ | rfl
+  · cases h
+  · exact absurd h hsome
+  · exact ⟨_, installed_checker _ _ _ _ _, (installed_heap _ _ _ _ _).1, (installed_heap _ _ _ _ _).2.1,
+      (installed_heap _ _ _ _ _).2.2⟩
 
 /-- **Constructors are not inherited**: for `__init__` / `__new__` nothing is collapsed, whatever the bases carry. -/
 theorem C04_constructor_contracts_not_inherited (w : World) (bases : List ClsId) (f : FnId) :
     decorateMember w bases "__init__" (.func f) = .ok w ∧ decorateMember w bases "__new__" (.func f) = .ok w := by
-  sorry
+  constructor <;> simp [decorateMember, decorateOne]
 
 /-- **Weakening without a base precondition is rejected** when the class is created. -/
 theorem C04_weaken_without_base_precondition_rejected (w : World) (key : String) (f : FnId)
     (bSnaps bPosts : List Nat) (ck : CheckerObj)
     (hck : w.checker? f = some ck) (hown : w.heap.get ck.pre ≠ []) :
     decorateOne w key f true (true, [], bSnaps, bPosts) = .error (.typeErrorWeaken key) := by
-  sorry
+  have : (w.heap.get ck.pre).isEmpty = false := by
+    cases h : w.heap.get ck.pre with
+    | nil => exact absurd h hown
+    | cons _ _ => rfl
+  simp [decorateOne, hck, this]
 
 /-- **An ancestor that provides the member with no precondition at all makes it accept every
 call**: as soon as one direct base provides the member without a checker, or with an empty
@@ -42,12 +51,16 @@ precondition list, no precondition group is collected from any base. -/
 theorem C04_unconstrained_base_accepts_everything (w : World) (acc : BaseAcc) (ck : Option CheckerObj)
     (h : ck = none ∨ ∃ c, ck = some c ∧ w.heap.get c.pre = []) :
     (acc.add w ck).result.1 = true ∧ (acc.add w ck).result.2.1 = [] := by
-  sorry
+  rcases h with rfl | ⟨c, rfl, hc⟩
+  · simp [BaseAcc.add, BaseAcc.result]
+  · simp [BaseAcc.add, BaseAcc.result, hc]
 
 /-- ... and it stays so whatever further bases contribute -/
 theorem C04_accept_all_is_sticky (w : World) (acc : BaseAcc) (ck : Option CheckerObj)
     (h : acc.acceptAll = true) : (acc.add w ck).acceptAll = true ∧ (acc.add w ck).result.2.1 = [] := by
-  sorry
+  cases ck with
+  | none => simp [BaseAcc.add, BaseAcc.result]
+  | some c => simp [BaseAcc.add, BaseAcc.result, h]
 
 /-- **Invariants of all bases are merged** into a *fresh* list (never a base's list object): the new
 reference lies beyond every existing cell and holds the concatenation of the bases' lists. -/
@@ -58,12 +71,23 @@ theorem C04_invariants_merged_into_fresh_list (w w' : World) (bases : List ClsId
       | some rb => acc ++ w.heap.get rb
       | none => acc) [] ∧
     (∀ r' < w.heap.length, w'.heap.get r' = w.heap.get r') := by
-  sorry
+  unfold collapseInv at h
+  simp only [] at h
+  split at h
+  · cases h
+  · simp only [Prod.mk.injEq, Option.some.injEq] at h
+    obtain ⟨rfl, rfl⟩ := h
+    exact ⟨rfl, Heap.get_alloc_self _ _, fun r' hr' => Heap.get_alloc_lt _ _ r' hr'⟩
 
 /-- a class whose bases carry invariant lists always gets its own (the repaired aliasing, F8) -/
 theorem C04_subclass_gets_own_invariant_lists (w : World) (bases : List ClsId) (d : InvDunder)
     (h : ∃ b ∈ bases, (lookupInv w b d).isSome = true) :
     ∃ w' r, collapseInv w bases d = (w', some r) := by
-  sorry
+  have hany : bases.any (fun b => (lookupInv w b d).isSome) = true := by
+    obtain ⟨b, hb, hs⟩ := h
+    exact List.any_eq_true.mpr ⟨b, hb, hs⟩
+  unfold collapseInv
+  simp only [hany, Bool.not_true, Bool.and_false, Bool.false_eq_true, if_false]
+  exact ⟨_, _, rfl⟩
 
 end Icontract.Meta
